@@ -773,5 +773,26 @@ pub fn gen_default_sets() -> Vec<Vec<TableDef>> {
         typed.columns.push(c);
     }
     out.push(vec![typed]);
+    // nullable x default (none / literal / number / function call / bare expression), and the same on key columns
+    let mut matrix = base_table("dflt_matrix".into());
+    for (ni, nullable) in [false, true].iter().enumerate() {
+        for (di, d) in [None, Some("'en'"), Some("42"), Some("now()"), Some("CURRENT_TIMESTAMP"), Some("true")].iter().enumerate() {
+            let mut c = col(&format!("c{}_{}", ni, di), text(), *nullable);
+            c.default = d.map(|x| DefaultValue::String(x.to_string()));
+            matrix.columns.push(c);
+        }
+    }
+    out.push(vec![matrix]);
+    for (k, (nullable, d)) in [(false, Some("0")), (true, None), (true, Some("7")), (false, Some("abs(1)"))].iter().enumerate() {
+        let mut t = TableDef { name: format!("dflt_pk{}", k), description: None, columns: vec![], constraints: vec![] };
+        let mut c = col("id", int(), *nullable);
+        c.default = d.map(|x| DefaultValue::String(x.to_string()));
+        t.columns.push(c);
+        t.columns.push(col("other", text(), true));
+        t.constraints.push(TableConstraint::PrimaryKey { auto_increment: false, columns: vec!["id".into()] });
+        t.constraints.push(TableConstraint::Unique { name: None, columns: vec!["other".into()] });
+        t.constraints.push(TableConstraint::Index { name: None, columns: vec!["id".into()] });
+        out.push(vec![t]);
+    }
     out.into_iter().filter_map(|m| normalized_slice(&m).filter(|n| gener::loader_accepts(n))).collect()
 }
